@@ -39,6 +39,7 @@ SCENARIOS = [
     ("delete-missing-after-idle", ["insert"], "delete_missing"),
     ("big-bulk-after-idle", ["insert", "insert"], "bulk", 9),                    # 130 events: a full chunk of 100 and a tail
     ("multi-upsert-after-idle", ["insert", "insert", "insert"], "upsert", 2),    # two rewrites and a fresh event in one call
+    ("other-store-busy", ["insert"], "insert"),     # another store of the process writes / is reopened just before the late write
 ]
 
 
@@ -105,6 +106,9 @@ def _op(kind, rng_pick=0):
         return dict(op="read", b="b", how="get1")
     if kind == "delete_missing":
         return dict(op="delete_missing", b="b", n=_uid[0])
+    if kind.startswith("other:"):
+        # the same kind of operation on ANOTHER lazily-committing store (its own file) open in the same process
+        return dict(_op(kind[6:], rng_pick), store="other") if kind[6:] != "reopen" else dict(op="reopen", store="other")
     if kind.startswith("fail:"):
         return dict(op="fail", b="b", what=kind[5:], ev=ev, ev2=dict(ev, data={"uid": _uid[0] + 10**7}))
     return dict(op=kind, b="b", ev=ev, pick=rng_pick)
@@ -126,6 +130,8 @@ def run_schedule(steps, ctx, clock, sleeper):
     hr = HistoryRunner("sqlite", path, ctx.tmp)
     obs = Observer(path, "sqlite")
     judged = []
+    other = None
+    opath = path[:-3] + "-other.db"
 
     def now():
         return time.monotonic() + (VClock.offset.total_seconds() if clock == "virtual" else 0.0)
@@ -136,6 +142,23 @@ def run_schedule(steps, ctx, clock, sleeper):
         t_flush = now()
         prev_kind = "create_bucket"
         for pause, op in steps:
+            if op.get("store") == "other":
+                # what another store of the same process does is none of this store's business: it neither flushes this
+                # store nor makes its data any younger
+                if pause > 0:
+                    sleeper(pause)
+                if other is None or op["op"] == "reopen":
+                    if other is not None:
+                        other.close(remove=False)
+                    other = HistoryRunner("sqlite", opath, ctx.tmp)
+                    if "b" not in other.buckets():
+                        other.run_op(dict(op="create_bucket", b="b"))
+                    other.refresh()
+                if op["op"] != "reopen":
+                    other.run_op({k: v for k, v in op.items() if k != "store"})
+                    other.refresh()
+                ctx.count("operations_on_another_store_in_between")
+                continue
             committed_before = obs.snapshot() or frozenset()
             view_before = hr.view
             pending = len(view_before ^ committed_before)
@@ -168,6 +191,11 @@ def run_schedule(steps, ctx, clock, sleeper):
     finally:
         obs.close()
         hr.close(remove=True)
+        if other is not None:
+            other.close(remove=True)
+        else:
+            from ._crash import remove_db
+            remove_db(opath)
     return judged
 
 
@@ -205,11 +233,14 @@ def worker(ctx):
         name, pre, final, *fp = SCENARIOS[(ctx.widx + rnd * 7) % len(SCENARIOS)]
         final_pick = fp[0] if fp else ctx.widx
         pause = PAUSE if rnd == 0 else PAUSE + 1 + (ctx.widx * 7 + rnd * 5) % 18
-        steps = [(0, _op(k, i)) for i, k in enumerate(pre)] + [(pause, _op(final, final_pick))]
+        plan_ = [(0, k, i) for i, k in enumerate(pre)] + [(pause, final, final_pick)]
+        if name == "other-store-busy":
+            plan_ = [(0, "insert", 0), (0, "other:insert", 0), (pause, "other:insert" if ctx.widx % 2 else "other:reopen", 0), (0, "insert", 0)]
         if name == "trickle":
             # no single pause reaches ten seconds, but the second write is ~13 s younger than the last flush
-            steps = [(0, _op("insert")), (pause / 2 + 0.5, _op("insert")), (pause / 2 + 0.5, _op("insert"))]
-        case = dict(kind="real", scenario=name, pause_s=pause, ops=[s[1]["op"] for s in steps], final_pick=final_pick)
+            plan_ = [(0, "insert", 0), (pause / 2 + 0.5, "insert", 0), (pause / 2 + 0.5, "insert", 0)]
+        steps = [(p, _op(k, pk)) for p, k, pk in plan_]
+        case = dict(kind="real", scenario=name, pause_s=pause, plan=plan_)
         uninstall_virtual_clock()
         real = run_schedule(steps, ctx, "real", _real_sleeper)
         v = _record(ctx, real, case, "real_pauses_judged")
@@ -231,10 +262,13 @@ def worker(ctx):
     try:
         while ctx.more():
             steps, plan_ = [], []
+            two_stores = rng.random() < 0.3
             for i in range(rng.randrange(2, 30)):
                 kind = rng.choice(["insert", "insert", "insert", "bulk", "replace", "replace_last", "delete", "upsert", "read",
                                    "delete_missing", "fail:upsert_unbindable", "fail:insert_unserializable", "fail:create_existing",
                                    "fail:bulk_unserializable"])
+                if two_stores and rng.random() < 0.3:
+                    kind = rng.choice(["other:insert", "other:insert", "other:read", "other:bulk", "other:reopen"])
                 pause = rng.choice([0, 0, 0, 0.5, 3, 9, 10.5, 11.5, 12, 12.5, 15, 60, 3600, 86399, 86400, 86400, 86404, 86409.5,
                                     86411, 2 * 86400 + 3, 7 * 86400, 30 * 86400 + 6 * 3600, 365 * 86400 + 1,
                                     rng.randrange(12, 40 * 86400) + rng.random()])
@@ -261,8 +295,7 @@ def run_case(case, ctx):
     """Replay of one recorded schedule (a real one sleeps for real)."""
     if case["kind"] == "real":
         uninstall_virtual_clock()
-        ops = case["ops"]
-        steps = [(0, _op(k, i)) for i, k in enumerate(ops[:-1])] + [(case["pause_s"], _op(ops[-1], case.get("final_pick", 0)))]
+        steps = [(p, _op(k, pk)) for p, k, pk in case["plan"]]
         judged = run_schedule(steps, ctx, "real", _real_sleeper)
         return _record(ctx, judged, case, "real_pauses_judged"), dict(sig=None, nontrivial=True)
     install_virtual_clock()
